@@ -853,8 +853,7 @@ Proof.
         cbn [chain]. split; [exact Ht|]. destruct Hv' as [_ Hv''].
         eapply chain_of_verified; [|exact Hv'']. intros a b Hv. exists now'. split; assumption.
     + discriminate.
-    + exfalso. apply (boundaries_no_panic drift tv now r c Hcne); [|exact Hb].
-      apply (Forall_inv_tail Hcs_ne).
+    + discriminate.
 Qed.
 
 (** the state after a verified chunk has been handed to the collector, before its test *)
@@ -1244,8 +1243,8 @@ Proof.
   - assert (Hfin : forall coll chunks, Some (finish now drift tv from coll chunks) = Some (RErr e) ->
                    (e = ECtx /\ ERespond p now fs = ECtxDone) \/ (e = EClosed /\ ERespond p now fs = EStop) \/
                    (e = ENotChain /\ exists p' now' fs', ERespond p now fs = ERespond p' now' fs')).
-    { intros coll chunks. unfold finish. destruct (verify_chunk_boundaries _ _ _ _ _); try discriminate.
-      intros [= <-]. right; right. split; [reflexivity|]. eauto. }
+    { intros coll chunks. unfold finish. destruct (verify_chunk_boundaries _ _ _ _ _); try discriminate;
+        (intros [= <-]; right; right; split; [reflexivity|]; eauto). }
     destruct (take_flight p (s_flight s)) as [[r fl]|]; [|congruence].
     destruct (do_request now drift tv from r fs) as [e'|h|]; cbn [s_res set_res]; try congruence.
     destruct (0 <? remaining r h).
@@ -2126,94 +2125,41 @@ Proof.
   - right. split; [reflexivity|]. destruct (Verify now drift rtv (last (p0 :: prev') hdr_nil) u); [reflexivity | contradiction].
 Qed.
 
-Lemma finish_p_spec now from coll chunks :
-  finish_p now drift tvp from coll chunks = finish now drift rtv from coll chunks \/
-  (finish_p now drift tvp from coll chunks = RPanic /\ finish now drift rtv from coll chunks = RErr ENotChain).
+Lemma finish_p_eq now from coll chunks :
+  finish_p now drift tvp from coll chunks = finish now drift rtv from coll chunks.
 Proof.
   unfold finish_p, finish, verify_chunk_boundaries_p, verify_chunk_boundaries.
-  destruct (h_nil from); [left; reflexivity|]. destruct (existsb is_nil chunks); [left; reflexivity|].
-  destruct (sort_c chunks) as [|c r]; [left; reflexivity|].
-  destruct (boundaries_p_spec now r c) as [->|[-> ->]]; [left; reflexivity | right; split; reflexivity].
-Qed.
-
-Lemma Verify_p_nopanic now t u : tvp t u <> TVPanics -> Verify_p now drift tvp t u = Some (Verify now drift rtv t u).
-Proof. intros H. unfold Verify_p. destruct (verify_mand now drift t u); [reflexivity|]. destruct (tvp t u); [reflexivity | contradiction]. Qed.
-
-Lemma boundaries_p_nopanic now : (forall t u, tvp t u <> TVPanics) -> forall cs prev,
-  boundaries_p now drift tvp prev cs = boundaries now drift rtv prev cs.
-Proof.
-  intros Hnp. induction cs as [|c r IH]; intros prev; cbn [boundaries_p boundaries]; [reflexivity|].
-  destruct prev as [|p0 prev']; [reflexivity|]. destruct c as [|u c']; [reflexivity|].
-  rewrite Verify_p_nopanic by apply Hnp.
-  destruct (Verify now drift rtv (last (p0 :: prev') hdr_nil) u); [reflexivity | apply IH].
+  destruct (h_nil from); [reflexivity|]. destruct (existsb is_nil chunks); [reflexivity|].
+  destruct (sort_c chunks) as [|c r]; [reflexivity|].
+  destruct (boundaries_p_spec now r c) as [->|[-> ->]]; reflexivity.
 Qed.
 
 Variables (maxcap : N) (from : hdr).
 
-Lemma run_p_nopanic : (forall t u, tvp t u <> TVPanics) -> forall evs s,
-  run_p drift tvp maxcap from s evs = run drift rtv maxcap from s evs.
+(** every panic of the type-level Verify is recovered - while an answer is processed and in the
+    boundary check -: the run is the run with the panics turned into rejections *)
+Lemma step_p_eq s ev : step_p drift tvp maxcap from s ev = step drift rtv maxcap from s ev.
 Proof.
-  intros Hnp.
-  assert (Hstep : forall s ev, step_p drift tvp maxcap from s ev = step drift rtv maxcap from s ev).
-  { intros s ev. unfold step_p, step. destruct (s_res s); [reflexivity|].
-    destruct ev as [p r|p now fs| |]; try reflexivity.
-    destruct (take_flight p (s_flight s)) as [[r fl]|]; [|reflexivity].
-    rewrite do_request_p_eq. destruct (do_request now drift rtv from r fs) as [e|h|]; try reflexivity.
-    destruct (if 0 <? remaining r h then _ else _); [reflexivity|].
-    destruct (_ <=? _); [|reflexivity].
-    unfold finish_p, finish, verify_chunk_boundaries_p, verify_chunk_boundaries.
-    destruct (h_nil from); [reflexivity|]. destruct (existsb is_nil _); [reflexivity|].
-    destruct (sort_c _) as [|c0 r0]; [reflexivity|].
-    rewrite (boundaries_p_nopanic now Hnp). reflexivity. }
-  induction evs as [|ev evs IH]; intros s; [reflexivity|]. cbn [run_p run]. rewrite Hstep. apply IH.
+  unfold step_p, step. destruct (s_res s); [reflexivity|].
+  destruct ev as [p r|p now fs| |]; try reflexivity.
+  destruct (take_flight p (s_flight s)) as [[r fl]|]; [|reflexivity].
+  rewrite do_request_p_eq. destruct (do_request now drift rtv from r fs) as [e|h|]; try reflexivity.
+  destruct (if 0 <? remaining r h then _ else _) as [bad|rq]; [reflexivity|].
+  rewrite finish_p_eq. reflexivity.
 Qed.
 
-(** the two runs go together until a panic in the boundary check, where the recovered run
-    reports the broken chain *)
-Lemma step_p_spec s ev :
-  step_p drift tvp maxcap from s ev = step drift rtv maxcap from s ev \/
-  (s_res (step_p drift tvp maxcap from s ev) = Some RPanic /\
-   s_res (step drift rtv maxcap from s ev) = Some (RErr ENotChain)).
+Lemma run_p_eq evs : forall s, run_p drift tvp maxcap from s evs = run drift rtv maxcap from s evs.
 Proof.
-  unfold step_p, step. destruct (s_res s); [left; reflexivity|].
-  destruct ev as [p r|p now fs| |]; try (left; reflexivity).
-  destruct (take_flight p (s_flight s)) as [[r fl]|]; [|left; reflexivity].
-  rewrite do_request_p_eq. destruct (do_request now drift rtv from r fs) as [e|h|]; try (left; reflexivity).
-  destruct (if 0 <? remaining r h then _ else _) as [bad|rq]; [left; reflexivity|].
-  destruct (s_amount s <=? N.of_nat (length (s_coll s ++ h))); [|left; reflexivity].
-  destruct (finish_p_spec now from (s_coll s ++ h) (s_chunks s ++ [h])) as [->|[-> ->]]; [left; reflexivity|].
-  right. split; reflexivity.
-Qed.
-
-Lemma run_p_done s evs r : s_res s = Some r -> run_p drift tvp maxcap from s evs = s.
-Proof.
-  revert s. induction evs as [|ev evs IH]; intros s Hr; [reflexivity|].
-  cbn [run_p]. assert (Hs : step_p drift tvp maxcap from s ev = s) by (unfold step_p; rewrite Hr; reflexivity).
-  rewrite Hs. apply IH. exact Hr.
-Qed.
-
-Lemma run_p_spec evs : forall s,
-  run_p drift tvp maxcap from s evs = run drift rtv maxcap from s evs \/
-  (s_res (run_p drift tvp maxcap from s evs) = Some RPanic /\
-   s_res (run drift rtv maxcap from s evs) = Some (RErr ENotChain)).
-Proof.
-  induction evs as [|ev evs IH]; intros s; [left; reflexivity|].
-  cbn [run_p run]. destruct (step_p_spec s ev) as [->|[H1 H2]]; [apply IH|].
-  right. rewrite (run_p_done _ _ _ H1), (run_done _ _ _ _ _ _ _ H2). split; assumption.
+  induction evs as [|ev evs IH]; intros s; [reflexivity|]. cbn [run_p run]. rewrite step_p_eq. apply IH.
 Qed.
 
 End panics.
 
-(** the outcome with a panicking verifier, in terms of the outcome with its panics recovered *)
-Theorem outcome_p_spec drift tvp maxcap per from to peers evs :
+(** the outcome with a panicking verifier is the outcome with its panics recovered *)
+Theorem outcome_p_eq drift tvp maxcap per from to peers evs :
   GetRangeByHeight_p drift tvp maxcap per from to peers evs =
-  GetRangeByHeight drift (recovered tvp) maxcap per from to peers evs \/
-  (GetRangeByHeight_p drift tvp maxcap per from to peers evs = Some RPanic /\
-   GetRangeByHeight drift (recovered tvp) maxcap per from to peers evs = Some (RErr ENotChain)).
-Proof.
-  unfold GetRangeByHeight_p, GetRangeByHeight.
-  destruct (run_p_spec drift tvp maxcap from evs (get_range maxcap per from to peers)) as [->|H]; [left; reflexivity | right; exact H].
-Qed.
+  GetRangeByHeight drift (recovered tvp) maxcap per from to peers evs.
+Proof. unfold GetRangeByHeight_p, GetRangeByHeight. rewrite run_p_eq. reflexivity. Qed.
 
 (** [u] passed Verify against [t] at the clock reading of one of the answers (a panic is not a pass) *)
 Definition verified_during_p drift (tvp : hdr -> hdr -> tvres_p) (evs : list event) (t u : hdr) : Prop :=
@@ -2234,60 +2180,31 @@ Theorem result_heights_p drift tvp maxcap per from to peers evs res :
   res <> [] /\
   map h_height res = seqN (h_height from + 1) (N.to_nat (to - (h_height from + 1))) /\
   (forall h, In h res -> h_height h < to /\ h_ok h = true /\ In h (evs_hdrs evs)).
-Proof.
-  intros H1 H2 H3 H4 H5.
-  destruct (outcome_p_spec drift tvp maxcap per from to peers evs) as [E|[E _]]; [|congruence].
-  rewrite E in H5. exact (result_heights _ _ _ _ _ _ _ _ _ H1 H2 H3 H4 H5).
-Qed.
+Proof. rewrite outcome_p_eq. apply result_heights. Qed.
 
 Theorem result_verified_p drift tvp maxcap per from to peers evs res :
   h_nil from = false -> h_height from < two64 -> to < two64 -> 1 <= per ->
   GetRangeByHeight_p drift tvp maxcap per from to peers evs = Some (ROk res) ->
   chain (verified_during_p drift tvp evs) from res.
 Proof.
-  intros H1 H2 H3 H4 H5.
-  destruct (outcome_p_spec drift tvp maxcap per from to peers evs) as [E|[E _]]; [|congruence].
-  rewrite E in H5. eapply chain_mono; [|exact (result_verified _ _ _ _ _ _ _ _ _ H1 H2 H3 H4 H5)].
+  rewrite outcome_p_eq. intros H1 H2 H3 H4 H5.
+  eapply chain_mono; [|exact (result_verified _ _ _ _ _ _ _ _ _ H1 H2 H3 H4 H5)].
   intros a b. apply verified_during_p_iff.
 Qed.
 
 Theorem degenerate_is_error_p drift tvp maxcap per from to peers evs :
   h_height from < two64 -> to <= h_height from + 1 ->
   GetRangeByHeight_p drift tvp maxcap per from to peers evs = Some (RErr ERangeMixUp).
-Proof.
-  intros H1 H2.
-  destruct (outcome_p_spec drift tvp maxcap per from to peers evs) as [E|[_ E]].
-  - rewrite E. apply degenerate_is_error; assumption.
-  - rewrite (degenerate_is_error _ _ _ _ _ _ _ _ H1 H2) in E. discriminate.
-Qed.
+Proof. rewrite outcome_p_eq. apply degenerate_is_error. Qed.
 
-(** the only way an answer can crash the client: the type-level Verify panicking in the
-    chunk-boundary check (with that panic recovered the run ends with the chain error) *)
-Theorem crash_only_in_boundary_check drift tvp maxcap per from to peers evs :
-  h_nil from = false -> h_height from < two64 -> to < two64 -> 1 <= per ->
-  to - (h_height from + 1) <= maxcap ->
-  GetRangeByHeight_p drift tvp maxcap per from to peers evs <> Some RFuel /\
-  (GetRangeByHeight_p drift tvp maxcap per from to peers evs = Some RPanic ->
-   GetRangeByHeight drift (recovered tvp) maxcap per from to peers evs = Some (RErr ENotChain)).
-Proof.
-  intros H1 H2 H3 H4 H5.
-  destruct (no_response_crashes drift (recovered tvp) maxcap per from to peers evs H1 H2 H3 H4 H5) as [Hp Hf].
-  destruct (outcome_p_spec drift tvp maxcap per from to peers evs) as [E|[E1 E2]].
-  - rewrite E. split; [exact Hf|]. intros Hx. contradiction.
-  - split; [rewrite E1; discriminate|]. intros _. exact E2.
-Qed.
-
-(** with a header type whose Verify never panics no answer can crash the client *)
+(** no answer of any peer, in any order, makes the call panic - whatever the header type's own
+    Verify does with it, panics included *)
 Theorem no_response_crashes_p drift tvp maxcap per from to peers evs :
-  (forall t u, tvp t u <> TVPanics) ->
   h_nil from = false -> h_height from < two64 -> to < two64 -> 1 <= per ->
   to - (h_height from + 1) <= maxcap ->
   GetRangeByHeight_p drift tvp maxcap per from to peers evs <> Some RPanic /\
   GetRangeByHeight_p drift tvp maxcap per from to peers evs <> Some RFuel.
-Proof.
-  intros Hnp H1 H2 H3 H4 H5. unfold GetRangeByHeight_p. rewrite (run_p_nopanic drift tvp maxcap from Hnp).
-  exact (no_response_crashes drift (recovered tvp) maxcap per from to peers evs H1 H2 H3 H4 H5).
-Qed.
+Proof. rewrite outcome_p_eq. apply no_response_crashes. Qed.
 
 Theorem errors_have_a_cause_p drift tvp maxcap per from to peers evs e :
   h_height from < two64 -> to < two64 -> 1 <= per ->
@@ -2295,11 +2212,7 @@ Theorem errors_have_a_cause_p drift tvp maxcap per from to peers evs e :
   (e = ERangeMixUp /\ to <= h_height from + 1) \/
   (e = ECtx /\ In ECtxDone evs) \/ (e = EClosed /\ In EStop evs) \/
   (e = ENotChain /\ exists p now fs, In (ERespond p now fs) evs).
-Proof.
-  intros H1 H2 H3 H4.
-  destruct (outcome_p_spec drift tvp maxcap per from to peers evs) as [E|[E _]]; [|congruence].
-  rewrite E in H4. exact (errors_have_a_cause _ _ _ _ _ _ _ _ _ H1 H2 H3 H4).
-Qed.
+Proof. rewrite outcome_p_eq. apply errors_have_a_cause. Qed.
 
 (** examples: a verifier that panics when a header with odd identity 999 is verified against
     the header directly below it *)
@@ -2307,19 +2220,7 @@ Definition ex_panic_hdr (n : N) : hdr := Hdr false 1 n 0%Z 999 (n - 1) true.
 Definition ex_tvp (t u : hdr) : tvres_p :=
   if (h_id u =? 999) && (h_height u =? h_height t + 1) then TVPanics else TVRes (ex_tv t u).
 
-Theorem no_response_crashes_refuted :
-  exists drift tvp maxcap per (from : hdr) (to : N) peers evs,
-    h_nil from = false /\ h_height from < two64 /\ to < two64 /\ 1 <= per /\
-    to - (h_height from + 1) <= maxcap /\
-    GetRangeByHeight_p drift tvp maxcap per from to peers evs = Some RPanic.
-Proof.
-  exists 0%Z, ex_tvp, 100, 3, (ex_hdr 10), 17, [0; 1],
-    [EDispatch 0 (Req 11 3); EDispatch 1 (Req 14 3);
-     ERespond 0 5%Z [FHdr (ex_hdr 11); FHdr (ex_hdr 12); FHdr (ex_hdr 13)];
-     ERespond 1 5%Z [FHdr (ex_panic_hdr 14); FHdr (Hdr false 1 15 0%Z 15 999 true); FHdr (Hdr false 1 16 0%Z 16 15 true)]].
-  split; [reflexivity|]. split; [vm_compute; reflexivity|]. split; [vm_compute; reflexivity|].
-  split; [vm_compute; discriminate|]. split; [vm_compute; discriminate|]. vm_compute. reflexivity.
-Qed.
+
 
 (** ** Get / GetByHeight with several trusted servers *)
 
